@@ -38,11 +38,14 @@ func init() {
 			checkVersionsAppendOnly(c)
 			checkIdentityValidate(c)
 			checkIdentityReadIdGuard(c, "R9.5")
+			checkIdentityMergeComparesCommits(c)
 			checkFirstVersionFrozen(c)
 			checkIdentityMergeAllVerdict(c)
 			checkNewOnlyWhenRefAbsent(c)
 			// what a long-running process serves and edits after a pull is the merged identity
 			checkCacheMergeFold(c, "R2.6")
+			c.Doc("R11.1", "per SubCache function: excerpts store ⇒ index write; delete ⇒ Index.Remove; reset ⇒ Index.Clear; and SubCache.write() on every path to a non-error exit")
+			checkExcerptIndexPairing(c)
 		})
 }
 
